@@ -44,9 +44,35 @@ def owned_uses(ctx, rid, m, f, var, kind, consts, chain, depth=0, seen=None):
     seen.add(key)
     g = CFG(f, may_raise=lambda n: False)
     rd = reaching_defs(g, var)
-    mutating = PLAN_MUTATING if kind == "plan" else REGISTRY_MUTATING
+    mutating = PLAN_MUTATING if kind == "plan" else REGISTRY_MUTATING if kind == "registry" else set()
     n_uses = 0
     mod = f.module
+    if kind == "registry":
+        # objects obtained from the registry's mapping are registry entries: they are owned by the caller as well
+        entry_vars = set()
+        for nm, bs in f.bindings.items():
+            for k, e, p_ in bs:
+                if e is not None and k in ("assign", "iter") and var in names_in(e) and "mapping" in norm(e):
+                    entry_vars.add(nm)
+        for ev in sorted(entry_vars):
+            n_uses += owned_entry_uses(ctx, rid, m, f, ev, chain + [f"{f.short}.{var}"], depth, seen)
+        # closures of f that see the registry: entries they fetch are the caller's too
+        for g_ in f.all_nested():
+            if isinstance(g_.node, ast.Lambda) or m.binding_scope(g_, var) is not f:
+                continue
+            evs = set()
+            for nm, bs in g_.bindings.items():
+                for k, e, p_ in bs:
+                    if e is not None and k in ("assign", "iter") and var in names_in(e) and ("mapping" in norm(e) or f"{var}[" in norm(e)):
+                        evs.add(nm)
+            for ev in sorted(evs):
+                n_uses += owned_entry_uses(ctx, rid, m, g_, ev, chain + [f"{f.short}.{var}"], depth, seen)
+            for node in g_.own_nodes():
+                # direct stores through the mapping inside the closure
+                if isinstance(node, ast.Attribute) and isinstance(node.ctx, (ast.Store, ast.Del)) and var in names_in(node.value) and "mapping" in norm(node.value):
+                    n_uses += 1
+                    ctx.ob(rid, " -> ".join(chain + [f"{g_.short}.{var}"]), False, loc(g_, node),
+                           f"attribute .{node.attr} of an entry of the caller's registry is assigned", norm(stmt_of(g_.module, node))[:100])
     for node in f.own_nodes():
         if not (isinstance(node, ast.Name) and node.id == var and isinstance(node.ctx, ast.Load)):
             continue
@@ -144,6 +170,50 @@ def owned_uses(ctx, rid, m, f, var, kind, consts, chain, depth=0, seen=None):
             continue
         ctx.ob(rid, inst, True, where, f"read-only position ({type(p).__name__})", norm(st)[:100])
     return n_uses
+
+
+def owned_entry_uses(ctx, rid, m, f, var, chain, depth, seen):
+    """`var` holds a registry entry (RegistryValue) of the caller's registry: it must only be read."""
+    key = (f, var, "entry")
+    if key in seen or depth > 6:
+        return 0
+    seen.add(key)
+    n = 0
+    mod = f.module
+    inst = " -> ".join(chain + [f"{f.short}.{var}"])
+    for node in f.own_nodes():
+        if isinstance(node, ast.Name) and node.id == var:
+            p = mod.parent.get(node)
+            if isinstance(p, ast.Attribute) and p.value is node:
+                n += 1
+                if isinstance(p.ctx, (ast.Store, ast.Del)):
+                    ctx.ob(rid, inst, False, loc(f, node),
+                           f"attribute .{p.attr} of an entry of the caller's registry is assigned: run leaves (per-run) state on objects shared "
+                           f"by every run that uses this registry", norm(stmt_of(mod, node))[:100])
+                else:
+                    ctx.ob(rid, inst, True, loc(f, node), f"entry attribute read .{p.attr}", norm(stmt_of(mod, node))[:80])
+            elif isinstance(p, (ast.Call, ast.keyword)):
+                call = p if isinstance(p, ast.Call) else mod.parent.get(p)
+                if isinstance(call, ast.Call) and node is not call.func:
+                    for tg in m.callee_funcs(f, call):
+                        if isinstance(p, ast.keyword):
+                            pname = p.arg
+                        else:
+                            idx = call.args.index(node)
+                            ps = tg.pos_params[1:] if (tg.cls is not None and not isinstance(call.func, ast.Name)) else tg.pos_params
+                            pname = ps[idx] if idx < len(ps) else None
+                        if pname:
+                            n += owned_entry_uses(ctx, rid, m, tg, pname, chain + [f"{f.short}.{var}"], depth + 1, seen)
+    # closures of f see the variable too
+    for g_ in f.nested:
+        if m.binding_scope(g_, var) is f:
+            for node in g_.own_nodes():
+                if isinstance(node, ast.Name) and node.id == var:
+                    p = g_.module.parent.get(node)
+                    if isinstance(p, ast.Attribute) and p.value is node and isinstance(p.ctx, (ast.Store, ast.Del)):
+                        n += 1
+                        ctx.ob(rid, inst, False, loc(g_, node), f"attribute .{p.attr} of a registry entry is assigned in a closure", norm(stmt_of(g_.module, node))[:100])
+    return n
 
 
 def graph_use_ok(mod, attr_node):
